@@ -60,7 +60,9 @@ class ClassifierAfterKMeans(BaseEstimator, ClassifierMixin):
         self.labels_ = list(sorted(classes))
         self.clus_ = {}
         sig = inspect.signature(self.clus.fit)
-        for cl in classes:
+        # sorted labels: the order in which the clusterings draw from the
+        # random generator must not depend on the iteration order of a set
+        for cl in self.labels_:
             m = clone(self.clus)
             Xcl = X[y == cl]
             if sample_weight is None or "sample_weight" not in sig.parameters:
